@@ -60,7 +60,7 @@ CHECKS["C13"] = {
         "self-operands (a.Or(a)) are excluded: the statement says 'any other duplex provider'",
         "Slice/Each order is not asserted, only the set",
     ],
-    "expected_probes": ["w2_runs"],
+    "expected_probes": ["w2_runs", "large_set_runs", "sequential_histories"],
 }
 
 CHECKS["C15"] = {
